@@ -180,9 +180,13 @@ Record dstate := {
   d_mix : list mixst        (* ls.Mix, one per channel *)
 }.
 
-Definition init_dstate (g : geom) : dstate :=
-  {| d_next := 0; d_ext := false; d_prev := 0;
+(* the state distributeData works on at the start of a run.  The LanceroSource object outlives a run:
+   updateChanOrderMap makes fresh Mix objects for every run, but the frame counter, the external-trigger level
+   and the time of the last block are NOT reset by a restart and are carried in from the previous run. *)
+Definition start_dstate (g : geom) (next : Z) (ext : bool) (prev : Z) : dstate :=
+  {| d_next := next; d_ext := ext; d_prev := prev;
      d_mix := map (fun _ => {| m_scale := 0%float; m_last := 0 |}) (zrange 0 (nchan g)) |}.
+Definition init_dstate (g : geom) : dstate := start_dstate g 0 false 0.      (* first run of the process *)
 
 (* the rising-edge scan over (flag, rowcount) pairs in loop order *)
 Fixpoint rising (last : bool) (l : list (bool * Z)) : bool * list Z :=
@@ -270,7 +274,9 @@ Fixpoint mix_apply (nsamp : Z) (chans : list Z) (fracs : list float) (mixes : li
 (* ---------- a run: chunks and mix requests in the order the harness issues them ---------- *)
 Record state := { s_pend : list Z; s_d : dstate }.
 
-Definition init_state (g : geom) : state := {| s_pend := []; s_d := init_dstate g |}.
+Definition start_state (g : geom) (next : Z) (ext : bool) (prev : Z) : state :=
+  {| s_pend := []; s_d := start_dstate g next ext prev |}.
+Definition init_state (g : geom) : state := start_state g 0 false 0.
 
 Section Run.
   Variable est : Z -> Z -> Z.
@@ -313,6 +319,17 @@ Section Run.
         match r with
         | RPanic _ => [r]
         | _ => r :: run st' rest
+        end
+    end.
+  (* the state the run leaves behind (for the next run on the same source object) *)
+  Fixpoint run_end (st : state) (ops : list op) : state :=
+    match ops with
+    | [] => st
+    | o :: rest =>
+        let '(st', r) := step st o in
+        match r with
+        | RPanic _ => st'
+        | _ => run_end st' rest
         end
     end.
 End Run.
